@@ -34,9 +34,11 @@ SumTo(sz, k) == IF k = 0 THEN 0 ELSE sz[k] + SumTo(sz, k - 1)
 Total(s, c) == SumTo(Sizes(s, c), Len(s.cont[c]))
 Offset(s, c, k) == SumTo(Sizes(s, c), k - 1)           \* global index of the first unknown of field k, zero-based
 
-\* the operand vectors are functions of the GLOBAL index g (1-based), so a wrong split or order is visible
-W(kind, v, g) == IF kind = "mul" THEN 1 + ((g + v) % 2) ELSE v * g
-Op2(kind, x, w) == CASE kind = "add" -> x + w [] kind = "sub" -> x - w [] kind = "mul" -> x * w
+\* the operand vectors are functions of the GLOBAL index g (1-based), so a wrong split or order is visible.
+\* Contents are dyadic rationals logged at scale Unit; factors and divisors are 1 or 2 (exact within the explored depth).
+Unit == 1024
+W(kind, v, g) == IF kind \in {"mul", "div"} THEN 1 + ((g + v) % 2) ELSE Unit * v * g
+Op2(kind, x, w) == CASE kind = "add" -> x + w [] kind = "sub" -> x - w [] kind = "mul" -> x * w [] kind = "div" -> x \div w
 
 \* in-place update of ONE array with the operand entries for global indices off+1 .. off+n
 UpdArr(h, a, kind, v, off) == [h EXCEPT ![a] = [i \in 1..Len(h[a]) |-> Op2(kind, h[a][i], W(kind, v, off + i))]]
@@ -48,7 +50,11 @@ IopFrom(s, c, kind, v, k) ==
 Iop(s, c, kind, v) == IopFrom(s, c, kind, v, 1)
 \* field-level operand: local index
 FIop(s, c, k, kind, v) == [s EXCEPT !.heap = UpdArr(s.heap, Arr(s, c, k), kind, v, 0)]
-Fill(s, c, k, v) == [s EXCEPT !.heap[Arr(s, c, k)] = [i \in 1..Size(s, c, k) |-> v]]
+Fill(s, c, k, v) == [s EXCEPT !.heap[Arr(s, c, k)] = [i \in 1..Size(s, c, k) |-> Unit * v]]
+\* field-level operand that is another FIELD:  c[k] op= d[j]   (entry-wise; the operand may be the updated array itself)
+FFop(s, c, k, d, j, kind) ==
+  LET a == Arr(s, c, k)  b == Arr(s, d, j) IN
+  [s EXCEPT !.heap[a] = [i \in 1..Len(s.heap[a]) |-> IF kind = "add" THEN s.heap[a][i] + s.heap[b][i] ELSE s.heap[a][i] - s.heap[b][i]]]
 \* zip(a.fields, b.fields): the field OBJECTS of a now reference b's arrays (everyone holding these objects sees it)
 \* (pair by pair, in order: if a and b share field objects, a later pair reads what an earlier pair has re-bound)
 RECURSIVE LinkFrom(_, _, _, _, _)
@@ -80,17 +86,25 @@ Apply(s, op) ==
   CASE op.op = "iop" -> Iop(s, op.c, op.kind, op.v)
     [] op.op = "fiop" -> FIop(s, op.c, op.k, op.kind, op.v)
     [] op.op = "fill" -> Fill(s, op.c, op.k, op.v)
+    [] op.op = "ffop" -> FFop(s, op.c, op.k, op.d, op.j, op.kind)
     [] op.op = "link" -> Link(s, op.a, op.b)
     [] op.op = "copy" -> Copy(s, op.a, op.t)
     [] op.op = "plus" -> Plus(s, op.a, op.kind, op.v, op.t)
     [] op.op = "join" -> Join(s, op.a, op.b, op.t)
+\* exact division: every entry of every field of c is divisible by its divisor (checked on the sequentially updated state)
+DivExact(s, c, v) == \A k \in Slots(s, c) : \A i \in 1..Size(s, c, k) : s.heap[Arr(s, c, k)][i] % 4 = 0
 \* preconditions under which the operation is a documented, meaningful call
 SameShape(s, a, b) == Len(s.cont[a]) = Len(s.cont[b]) /\ \A k \in Slots(s, a) : Size(s, a, k) = Size(s, b, k)
 Enabled(s, op) ==
-  CASE op.op \in {"iop"} -> Defined(s, op.c)
+  CASE op.op \in {"iop"} -> Defined(s, op.c) /\ (op.kind = "div" => DivExact(s, op.c, op.v))
     [] op.op \in {"fiop", "fill"} -> Defined(s, op.c) /\ op.k \in Slots(s, op.c)
+    [] op.op = "ffop" -> Defined(s, op.c) /\ Defined(s, op.d) /\ op.k \in Slots(s, op.c) /\ op.j \in Slots(s, op.d)
+                         /\ Size(s, op.c, op.k) = Size(s, op.d, op.j)
+    \* exact division only (all entries divisible by their divisor)
+
     [] op.op = "link" -> Defined(s, op.a) /\ Defined(s, op.b) /\ op.a # op.b /\ SameShape(s, op.a, op.b)
-    [] op.op \in {"copy", "plus"} -> Defined(s, op.a)
+    [] op.op = "copy" -> Defined(s, op.a)
+    [] op.op = "plus" -> Defined(s, op.a) /\ (op.kind = "div" => DivExact(s, op.a, op.v))
     [] op.op = "join" -> Defined(s, op.a) /\ Defined(s, op.b) /\ Len(s.cont[op.a]) + Len(s.cont[op.b]) <= 4
 
 \* ---- structural facts (invariants of every reachable state, checked by FieldsMC)
